@@ -445,6 +445,10 @@ def run_batch(c, cls, batch, stream, members_of=None):
             c.hit(stream + "/delta-below-min")
         if any(abs(e[0][0]) == 0.0 and e[1] for e in log):
             c.hit(stream + "/success-at-theta-0")
+        if r["kind"] == "ok" and not r["ret"] and len(log) > 1 and r.get("final") and r["final"][0] == len(log) - 1:
+            # observation (not judged): after a FAILED run the base class exposes the failed solve's
+            # output; the accepted results stay private to the mixin
+            c.hit(stream + "/failed-run-exposes-failed-solve")
         c.sample(dict(case, ret=r["ret"], thetas=[e[0][0] for e in log]), limit=6)
         if outs is not None:
             compare(c, case, opts, r, outs[i], exact, stream)
